@@ -7,7 +7,7 @@ H("c08_attrs", "C08", "seq", ["harness/c08_attrs.cc"], sdk=_C08_SDK, cxxflags=["
        "(equal-as-maps <=> same series, equal => equal hash, filter removes exactly the disallowed keys, owned copies)",
   design_ref="5/C08")
 H("c08_cardinality", "C08", "seq", ["harness/c08_cardinality.cc"], sdk=_C08_SDK, cxxflags=["-fno-access-control"],
-  args={"quick": ["--depth=7"], "thorough": ["--depth=9"]},
+  args={"quick": ["--depth=8"], "thorough": ["--depth=9"]},
   what="real SyncMetricStorage with cardinality limit 1..4: every history of the given depth over Record(one of limit+2 attribute sets, unique bit per record) and "
        "Collect(collector) for {delta}, {cumulative}, {delta,cumulative} collectors, plus MeterProvider configurations at the default limit 2000 "
        "(1999/2001 sets, 2x1100, 2x2001, 3x1100, two readers with two pending interval tables); after every collection: series <= limit, only recorded sets or "
